@@ -869,6 +869,8 @@ def run(ctx, rep):
     c10_debug.run(ctx, rep)
     from rules import c10_order
     c10_order.run(ctx, rep)
+    from rules import c10_seplist
+    c10_seplist.run(ctx, rep)
     rule_delimcount(ctx, rep)
     # rendering is total: a renderer that panics on a library the parser produced yields no text at all, so there is nothing to parse back
     from rules import c04
